@@ -87,6 +87,15 @@ type sim struct {
 	crashAtSync int // -1: none
 	panics      []string
 	failed      string
+	// network partition: messages from or to an isolated node are lost at delivery time
+	isolated map[int]bool
+	// durability invariant (shadow restart after a Ready that changed term / vote / log)
+	shadow      bool
+	shadowRuns  int
+	shadowViol  []string
+	lastHS      map[int][2]uint64
+	removed     map[int]bool // nodes that left the cluster through a membership change
+	peers       []string
 }
 
 var simSeq int
@@ -96,7 +105,7 @@ func newSim(nNodes int, clientSpecs []clientSpec) *sim {
 	root := filepath.Join("/dev/shm", fmt.Sprintf("verif-cluster-%d", os.Getpid()), fmt.Sprint(simSeq))
 	os.RemoveAll(root)
 	os.MkdirAll(root, 0o750)
-	s := &sim{root: root, crashAtSync: -1}
+	s := &sim{root: root, crashAtSync: -1, isolated: map[int]bool{}, lastHS: map[int][2]uint64{}, removed: map[int]bool{}, shadow: true}
 	wal.SegmentSizeBytes = 64 * 1024
 	fileutil.VerifSyncHook = func(op string, f *os.File) {
 		s.syncCount++
@@ -108,6 +117,7 @@ func newSim(nNodes int, clientSpecs []clientSpec) *sim {
 	for i := range peers {
 		peers[i] = fmt.Sprintf("http://127.0.0.1:%d", 20000+i)
 	}
+	s.peers = peers
 	for i := 0; i < nNodes; i++ {
 		n := &node{id: i + 1, dir: filepath.Join(root, fmt.Sprintf("n%d", i+1))}
 		n.cond = sync.NewCond(&n.mu)
@@ -289,6 +299,13 @@ func (s *sim) processReady(i int) bool {
 	if !n.waitApplied(60 * time.Second) {
 		s.failed = fmt.Sprintf("node %d: apply loop did not finish", n.id)
 	}
+	if s.shadow && n.alive {
+		hs := n.vn.RN.BasicStatus().HardState
+		if len(rd.Entries) > 0 || s.lastHS[i] != [2]uint64{hs.Term, hs.Vote} {
+			s.lastHS[i] = [2]uint64{hs.Term, hs.Vote}
+			s.shadowCheck(i)
+		}
+	}
 	for _, m := range msgs {
 		if m.To != 0 {
 			s.pool = append(s.pool, m)
@@ -320,6 +337,9 @@ func (s *sim) pump(i int) bool {
 func (s *sim) deliver(idx int) {
 	m := s.pool[idx]
 	s.pool = append(s.pool[:idx], s.pool[idx+1:]...)
+	if s.isolated[int(m.From)-1] || s.isolated[int(m.To)-1] || int(m.To) > len(s.nodes) {
+		return // lost
+	}
 	to := s.nodes[m.To-1]
 	if to.alive {
 		to.vn.RN.Step(m)
@@ -533,4 +553,92 @@ func (s *sim) bootstrap() {
 	s.stabilise(200)
 	s.campaign(0)
 	s.stabilise(400)
+}
+
+// shadowCheck: the messages of the Ready just handled are about to leave the node, so everything
+// they promise must already be recoverable.  A copy of the node's directory is restarted through
+// the real recovery path (replayWAL); the recovered term, vote and log must equal the live ones.
+// (Files keep everything written: this is the process-crash model of C07/C08, not sector loss.)
+func (s *sim) shadowCheck(i int) {
+	n := s.nodes[i]
+	s.shadowRuns++
+	sh := n.dir + ".shadow"
+	os.RemoveAll(sh)
+	defer os.RemoveAll(sh)
+	if err := copyTree(n.dir, sh); err != nil {
+		s.failed = "shadow copy: " + err.Error()
+		return
+	}
+	hook := fileutil.VerifSyncHook
+	fileutil.VerifSyncHook = nil // the shadow restart is not part of the run: its syncs are no crash points
+	defer func() { fileutil.VerifSyncHook = hook }()
+	var rc2 *raftexample.RaftNode
+	var err error
+	func() {
+		defer func() {
+			if r := recover(); r != nil {
+				err = fmt.Errorf("recovery panics: %v", r)
+			}
+		}()
+		rc2, _, _, err = raftexample.VerifNewRaftNode(n.id, s.peers, sh, func() ([]byte, error) { return nil, nil })
+	}()
+	if err != nil {
+		s.shadowViol = append(s.shadowViol, fmt.Sprintf("node %d: what is on disk after a Ready was handled cannot be restarted: %v", n.id, err))
+		return
+	}
+	defer rc2.VerifCloseWAL()
+	live := n.vn.RN.BasicStatus().HardState
+	got, _, _ := rc2.VerifStorage().InitialState()
+	if got.Term != live.Term || got.Vote != live.Vote {
+		s.shadowViol = append(s.shadowViol, fmt.Sprintf("node %d sends messages at term %d vote %d, but a restart from its files recovers term %d vote %d (term and vote must be durable before a message leaves the node)", n.id, live.Term, live.Vote, got.Term, got.Vote))
+		return
+	}
+	ls, ds := n.rc.VerifStorage(), rc2.VerifStorage()
+	ll, _ := ls.LastIndex()
+	dl, _ := ds.LastIndex()
+	lf, _ := ls.FirstIndex()
+	df, _ := ds.FirstIndex()
+	if ll != dl {
+		s.shadowViol = append(s.shadowViol, fmt.Sprintf("node %d: the log in memory ends at index %d, the log recovered from its files at %d", n.id, ll, dl))
+		return
+	}
+	lo := lf
+	if df > lo {
+		lo = df
+	}
+	if lo <= ll {
+		le, err1 := ls.Entries(lo, ll+1, 1<<30)
+		de, err2 := ds.Entries(lo, ll+1, 1<<30)
+		if err1 != nil || err2 != nil || len(le) != len(de) {
+			s.shadowViol = append(s.shadowViol, fmt.Sprintf("node %d: entries %d..%d cannot be compared (%v / %v, %d vs %d)", n.id, lo, ll, err1, err2, len(le), len(de)))
+			return
+		}
+		for k := range le {
+			if le[k].Term != de[k].Term || le[k].Index != de[k].Index || string(le[k].Data) != string(de[k].Data) {
+				s.shadowViol = append(s.shadowViol, fmt.Sprintf("node %d: entry %d is (term %d, %q) in memory but (term %d, %q) after a restart from its files", n.id, le[k].Index, le[k].Term, le[k].Data, de[k].Term, de[k].Data))
+				return
+			}
+		}
+	}
+}
+
+func copyTree(src, dst string) error {
+	return filepath.Walk(src, func(p string, info os.FileInfo, err error) error {
+		if err != nil {
+			return err
+		}
+		rel, _ := filepath.Rel(src, p)
+		t := filepath.Join(dst, rel)
+		if info.IsDir() {
+			return os.MkdirAll(t, 0o750)
+		}
+		if !info.Mode().IsRegular() {
+			return nil
+		}
+		b, err := os.ReadFile(p)
+		if err != nil {
+			return err
+		}
+		return os.WriteFile(t, b, 0o600)
+	})
 }
